@@ -6,7 +6,7 @@ CONSTANTS
   BinOps <- MC_OpsAll
   Maps = {}
   OnePairs = {}
-  Routes = {"equation", "block"}
+  Routes = {"equation", "block", "shared_block", "shared_each"}
   MaxUnits = 1000
   MinUnits = 0
   MaxDepth = 8
